@@ -309,7 +309,13 @@ impl VM {
                     let idx = self.read_u16();
                     #[cfg(feature = "verif")]
                     crate::verif::probe_global(self.ip, idx, self.globals.len());
-                    let value = self.globals[idx as usize];
+                    // A global that is read before its declaration has finished (stel x = x) is null,
+                    // just like a local variable in that situation
+                    let value = self
+                        .globals
+                        .get(idx as usize)
+                        .copied()
+                        .unwrap_or_else(Object::null);
                     self.push(value);
                 }
                 OpCode::SetLocal => {
